@@ -808,13 +808,7 @@ fn execute(args: &Opts, input: String, filename: Option<PathBuf>) -> Result<Vec<
 	// Let's figure out if we want to print the whole buffer
 	let no_fields = ctx.fmt_lines.is_empty(); // No fields were extracted
 	let has_files = !ctx.args.files.is_empty(); // We have files to edit
-	let has_pattern_search = ctx.args.cmds.iter().any(|cmd| {
-		if let Cmd::Global { then_cmds, .. } = cmd {
-			then_cmds.iter().any(|cmd| matches!(cmd, Cmd::Field(_) | Cmd::NamedField(_, _)))
-		} else {
-			false
-		}
-	});
+	let has_pattern_search = has_global_with_field(&ctx.args.cmds);
 	let editing_inplace = args.edit_inplace; // We are not editing in place
 
 	// If we have not extracted any fields, and the following conditions are true:
@@ -835,6 +829,22 @@ fn execute(args: &Opts, input: String, filename: Option<PathBuf>) -> Result<Vec<
 	}
 
 	Ok(ctx.fmt_lines)
+}
+
+/// Is there a `-g`/`-v` scope that extracts a field? Repeat groups count as their body written out.
+fn has_global_with_field(cmds: &[Cmd]) -> bool {
+	fn has_field(cmds: &[Cmd]) -> bool {
+		cmds.iter().any(|cmd| match cmd {
+			Cmd::Field(_) | Cmd::NamedField(_, _) => true,
+			Cmd::Repeat { body, .. } => has_field(body),
+			_ => false
+		})
+	}
+	cmds.iter().any(|cmd| match cmd {
+		Cmd::Global { then_cmds, .. } => has_field(then_cmds),
+		Cmd::Repeat { body, .. } => has_global_with_field(body),
+		_ => false
+	})
 }
 
 /// Trim the fields 🧑‍🌾
